@@ -6,6 +6,7 @@
    document and the routes hold for EVERY configuration record; those that relate to options are for
    `build p opts = Some cfg`, for all option lists. *)
 From Verif Require Import Base Scope Types Prog Pop Token Authorize System Config Discovery Required Rets ConfigProofs C11Proofs C19Proofs.
+From Verif Require Import Config2 Discovery2 C19ListsProofs.
 Local Open Scope N_scope.
 
 (* every endpoint URL in the document is issuer ++ prefix ++ path of a route that is registered for
@@ -175,3 +176,123 @@ Theorem require_pushed_requests_enforced : forall iss mtls cfg statics st n r,
   xrefused (snd (step_g (mkWorld cfg statics) st n (OpAuthorize r))).
 Proof. exact require_par_enforced. Qed.
 Print Assumptions require_pushed_requests_enforced.
+
+(* ============================================================================================== *)
+(* Client-authentication METHOD lists and signing / encryption ALGORITHM lists as inputs          *)
+(* (Model/Config2.v: `build2 p opts` over opt2 = the list-taking options of pkg/provider/option.go *)
+(*  with their real arguments, wrapping Config.build; Model/Discovery2.v: the 20 list members of   *)
+(*  the document - `l_flag` the guard under which oidcConfig assigns the member, `l_value` the     *)
+(*  configuration list, `lmember_value` with the omitempty rule - and the run-time gates           *)
+(*  `assertion_accepted`, `artifact_encryption`, `artifact_expected` reading the same lists).      *)
+(*  Proofs in Proofs/C19ListsProofs.v.                                                             *)
+(* ============================================================================================== *)
+
+(* for EVERY configuration record and every list member: it is in the document iff its guard holds
+   and its list is non-empty (id_token_signing_alg_values_supported has no omitempty), and an element
+   is advertised iff the guard holds and it is in the list *)
+Theorem list_member_present_iff : forall c2 m,
+  l_advertised c2 m = orb (l_always m) (andb (l_flag c2 m) (negb (is_nil (l_value c2 m)))) /\
+  (forall x, l_advertised_in c2 m x = andb (l_flag c2 m) (mem x (l_value c2 m))) /\
+  (forall iss mtls v, lmember_value c2 m = Some v -> In (lmember_name m, v) (document2 c2 iss mtls)).
+Proof.
+  exact (fun c2 m => conj (l_advertised_eq c2 m) (conj (l_advertised_in_eq c2 m)
+           (fun iss mtls v => document2_list_member c2 iss mtls m v))).
+Qed.
+Print Assumptions list_member_present_iff.
+
+(* for all option lists: every guard is set exactly by its enabling option(s) ... *)
+Theorem list_flags_from_options : forall p opts c2, build2 p opts = Some c2 ->
+  (forall e, eflag_get e (c2_lists c2) = existsb (sets_enc e) opts) /\
+  cf_introspection (c2_base c2) = existsb (enables sets_introspection) opts /\
+  cf_revocation (c2_base c2) = existsb (enables sets_revocation) opts /\
+  cf_jar_enabled (c2_base c2) = existsb (enables sets_jar) opts /\
+  cf_jarm_enabled (c2_base c2) = existsb (enables sets_jarm) opts /\
+  cf_dpop_enabled (c2_base c2) = existsb (enables sets_dpop) opts /\
+  cf_ciba_enabled (c2_base c2) = existsb (enables sets_ciba) opts /\
+  cf_ciba_jar_enabled (c2_base c2) = existsb (enables sets_ciba_jar) opts.
+Proof.
+  exact (fun p opts c2 H => conj (enc_flag_eq p opts c2 H) (conj (introspection2_eq p opts c2 H)
+    (conj (revocation2_eq p opts c2 H) (conj (jar2_eq p opts c2 H) (conj (jarm2_eq p opts c2 H)
+    (conj (dpop2_eq p opts c2 H) (conj (ciba2_eq p opts c2 H) (ciba_jar2_eq p opts c2 H)))))))).
+Qed.
+Print Assumptions list_flags_from_options.
+
+(* ... and every list is appendIfNotIn(rest, first) of the LAST option that writes it, or the default
+   of setDefaults: none for the lists setDefaults leaves alone, RS256 for the ID token, A128CBC-HS256
+   for a content-encryption list whose Enc flag is set (and only then) *)
+Theorem list_values_from_options : forall p opts c2, build2 p opts = Some c2 ->
+  (forall f, stable f = true ->
+     field_get f (c2_lists c2) = match last_some (setter f) opts with Some v => v | None => [] end) /\
+  l_idt_sig_algs (c2_lists c2) = match last_some (setter FIdtSig) opts with Some v => v | None => ["RS256"] end /\
+  (forall e, field_get (content_field e) (c2_lists c2) =
+     match last_some (setter (content_field e)) opts with
+     | Some v => v
+     | None => if existsb (sets_enc e) opts then ["A128CBC-HS256"] else [] end).
+Proof.
+  exact (fun p opts c2 H => conj (stable_field_value p opts c2 H) (conj (idt_sig_value p opts c2 H) (content_value p opts c2 H))).
+Qed.
+Print Assumptions list_values_from_options.
+
+(* for all option lists an enabled list is never empty, hence: the member is present iff its guard
+   holds.  (What seeded change (B) violates: *_encryption_enc_values_supported present with the Enc
+   flag unset.)  `guarded` = every list member but the five below. *)
+Theorem enabled_list_members_present : forall p opts c2, build2 p opts = Some c2 -> forall m, guarded m = true ->
+  l_advertised c2 m = l_flag c2 m /\ (l_flag c2 m = true -> l_value c2 m <> []).
+Proof.
+  exact (fun p opts c2 H m Hg => conj (guarded_present_iff_flag p opts c2 H m Hg) (guarded_nonempty p opts c2 H m Hg)).
+Qed.
+Print Assumptions enabled_list_members_present.
+
+(* the two members written only by an option of their own, without a flag *)
+Theorem unguarded_list_members_present : forall p opts c2, build2 p opts = Some c2 ->
+  l_advertised c2 LTokenMethods = existsb (writes FTokenMethods) opts /\
+  l_advertised c2 LUiSig = existsb (writes FUiSig) opts.
+Proof. exact unguarded_present. Qed.
+Print Assumptions unguarded_list_members_present.
+
+(* advertised auth method at endpoint E => the allowed-algorithm list for E is non-empty, an algorithm
+   is advertised for E, and an assertion signed with it authenticates a client registered with that
+   method (what seeded change (A) violates) *)
+Theorem advertised_jwt_method_has_algorithms : forall p opts c2 e m, build2 p opts = Some c2 ->
+  is_jwt_method m = true -> l_advertised_in c2 (aep_methods e) m = true ->
+  authn_sig_algs c2 "" m <> [] /\
+  exists a, l_advertised_in c2 (aep_sig_algs e) a = true /\ assertion_accepted c2 e m "" a = true.
+Proof. exact jwt_method_has_algs. Qed.
+Print Assumptions advertised_jwt_method_has_algorithms.
+
+(* every algorithm of <endpoint>_auth_signing_alg_values_supported is accepted there for an advertised
+   method, and an algorithm accepted for an advertised method is advertised (every config2) *)
+Theorem advertised_auth_algorithm_accepted : forall c2 e a, l_advertised_in c2 (aep_sig_algs e) a = true ->
+  exists m, is_jwt_method m = true /\ l_advertised_in c2 (aep_methods e) m = true /\
+            assertion_accepted c2 e m "" a = true.
+Proof. exact advertised_alg_accepted. Qed.
+Print Assumptions advertised_auth_algorithm_accepted.
+
+Theorem accepted_auth_algorithm_advertised : forall c2 e m a, l_advertised_in c2 (aep_methods e) m = true ->
+  assertion_accepted c2 e m "" a = true -> l_advertised_in c2 (aep_sig_algs e) a = true.
+Proof. exact accepted_alg_advertised. Qed.
+Print Assumptions accepted_auth_algorithm_advertised.
+
+(* a client asking for an advertised key-encryption algorithm gets its artifact encrypted with it and
+   with the content algorithm it asked for (the server's default if it asked for none) *)
+Theorem advertised_encryption_is_applied : forall c2 a k c, is_empty k = false ->
+  l_advertised_in c2 (art_key_member a) k = true ->
+  artifact_encryption c2 a k c = Some (k, if is_empty c then art_default_cenc c2 a else c).
+Proof. exact advertised_encryption_applied. Qed.
+Print Assumptions advertised_encryption_is_applied.
+
+(* no <artifact>_encryption_alg_values_supported => whatever the client registered, the artifact is not
+   encrypted (or, for the JWT-secured authorization response, not issued) *)
+Theorem unadvertised_encryption_absent : forall p opts c2 a, build2 p opts = Some c2 ->
+  l_advertised c2 (art_key_member a) = false ->
+  forall sig k c, match artifact_expected c2 a sig k c with Some (Some _, _) => False | _ => True end.
+Proof. exact unadvertised_not_encrypted. Qed.
+Print Assumptions unadvertised_encryption_absent.
+
+(* arguments the options refuse make provider.New fail; WithSecretJWTSignatureAlgs refuses every
+   non-empty first argument (it ranges over the runes of `alg`) *)
+Theorem refused_list_arguments : forall p opts,
+  (forall o, In o opts -> opt2_ok o = false -> build2 p opts = None) /\
+  (forall a l, In (WithSecretJWTSignatureAlgs a l) opts -> is_empty a = false -> build2 p opts = None).
+Proof. exact (fun p opts => conj (refused_option p opts) (secret_jwt_algs_always_refused p opts)). Qed.
+Print Assumptions refused_list_arguments.
